@@ -1,5 +1,6 @@
 """C10 - generations move forward on every change and only then."""
-from pv import machine, oracles
+from pv import cgen, engc, machine, oracles
+from pv.runner import Violation
 from pv.props import common as C
 
 RULE = ('Hypothesis rule-based state machine over all write routes plus reads; '
@@ -15,7 +16,10 @@ RULE = ('Hypothesis rule-based state machine over all write routes plus reads; '
         'deletion, trait clearing, aggregates on both sides of 1.19, '
         'allocation removal, ...) or a rejected write in a state with '
         'generations > 0; distinct = distinct history prefix. The check is '
-        'inconclusive (exit 2) if a named path was never taken.')
+        'inconclusive (exit 2) if a named path was never taken. In addition a '
+        'small schedule exploration (engine C, 2-3 concurrent writes on one '
+        'provider) checks that a successful write reports the generation it '
+        'committed and that no generation decreases at any scheduling point.')
 
 PATHS = ['aggregates>=1.19', 'aggregates<1.19', 'alloc-put', 'alloc-clear',
          'post_allocations', 'reshaper', 'delete_allocations',
@@ -46,7 +50,36 @@ C.standard_module(globals(), 'C10', PROFILE, 25, 400)
 _run = run_worker  # noqa: F821
 
 
+def race_oracle(ctx, svc, snap, start, reqs, race, schedule):
+    engc.returned_generation_is_committed(race, start, reqs)
+    # no generation of a surviving row ever decreases, under any schedule
+    prev = start
+    for (_n, _k, d) in race.points:
+        if d is None:
+            continue
+        for u, p in prev.providers.items():
+            q = d.providers.get(u)
+            if q is not None and q['id'] == p['id'] and \
+                    q['generation'] < p['generation']:
+                raise Violation({'clause': 'provider-generation-decreased-'
+                                           'under-race'}, {'provider': u})
+        prev = d
+
+
 def run_worker(ctx):
     _run(ctx)
+    # the same statement with other requests in flight (the response of a
+    # write must still report the generation that write committed)
+    engc.run_cases(ctx, cgen.provider_race_case, race_oracle,
+                   examples=ctx.pick(3, 40), free=3, splits=6)
     if ctx.idx == 0:
         ctx.stats.extra['paths_required'] = PATHS
+
+
+_replay_machine = replay  # noqa: F821
+
+
+def replay(ctx, data):
+    if 'reqs' in data:
+        return engc.replay(ctx, race_oracle, data)
+    return _replay_machine(ctx, data)
